@@ -377,7 +377,8 @@ def C19(infos: List[EnumInfo], ctx: dict):
     wstats = {}
     try:
         import corpus
-        fails = [f for f in corpus.failures() if not f.module.endswith("_phf")]
+        std_failed = set(f.module for f in corpus.failures() if f.crate.startswith("c_std_"))
+        fails = [f for f in corpus.failures() if not f.module.endswith("_phf") and not f.crate.startswith("c_std_") and f.module not in std_failed]
         crates = corpus._LAST.get("crates") or {}
         for cfg in ("nostd", "renamed", "shadow", "std"):
             wstats[cfg] = sum(len(v) for k, v in crates.items() if k.split("_")[1] == cfg)
